@@ -47,6 +47,22 @@ def row_fp(row) -> Tuple:
     return tuple(out)
 
 
+def prehistory(m, calc):
+    U = m.Unit
+    dm = m.DragModel(0.21, m.TableG1, U.Grain(55), U.Inch(0.224), U.Inch(0.75))
+    mk = lambda **kw: m.Shot(m.Weapon(U.Inch(2.6), U.Inch(8)), m.Ammo(dm, U.FPS(3000)), **kw)
+    res = []
+    for req in (lambda: calc.fire(mk(cant_angle=U.Degree(30)), U.Foot(40), U.Foot(10)),
+                lambda: calc.set_weapon_zero(mk(), U.Yard(9000)),
+                lambda: calc.barrel_elevation_for_target(mk(look_angle=U.Degree(-12)), U.Yard(7000))):
+        try:
+            req()
+            res.append("returned")
+        except Exception as e:  # noqa
+            res.append(type(e).__name__)
+    return res
+
+
 def run_fire(sc: Dict[str, Any], tid: int, keep_call: bool = False) -> Dict[str, Any]:
     """sc = {"shot": params, "cfg": {...}|None, "range_ft":, "step_ft": (None = default), "unit":, "extra":, "time_step":,
              "zero_yd": optional}"""
@@ -71,6 +87,11 @@ def run_fire(sc: Dict[str, Any], tid: int, keep_call: bool = False) -> Dict[str,
         if calc is None:
             calc = _CALCS[ckey] = shots.build_calc(sc.get("cfg"))
     out: Dict[str, Any] = {"tid": tid, "sc": sc, "prefs": preset, "calc_reused": calc is _CALCS.get(ckey)}
+    if tid % 3 == 1 and not sc.get("no_prehistory"):
+        # ... and a history that includes requests the calculator could not serve and shots of another kind: another rifle fired
+        # canted, a zero far beyond reach (the search's first trial shot ends in a range error), an elevation for an unreachable
+        # downhill target.  Nothing of it may reach the call under test.
+        out["prehistory"] = prehistory(m, calc)
     if sc.get("zero_yd"):
         try:
             calc.set_weapon_zero(shot, m.Unit.Yard(sc["zero_yd"]))
